@@ -1,5 +1,5 @@
 From Coq Require Import ZArith List Bool Extraction ExtrOcamlBasic.
-From C15 Require Import Model.
+From C15 Require Import Model FloatModel.
 From Coq Require Import String.
 (* zio.ml (shared I/O helpers) mentions the extracted Coq string type; make the extraction contain it *)
 Definition io_string_witness : string := EmptyString.
@@ -10,4 +10,7 @@ Extraction "c15.ml" tag untag from_object as_object from_ssize too_big
   tagged_is_eq tagged_is_ne tagged_is_lt tagged_is_le tagged_is_gt tagged_is_ge compare_tagged
   fw_op fw_inline_divide fw_inline_mod fw_neg fw_invert fw_wrap in_range coerce_int_to_fw coerce_fw_to_int long_as_fw
   py_add py_sub py_mul py_neg py_invert py_and py_or py_xor py_floordiv py_mod py_lshift py_rshift py_cmp py_fwop
-  bool_to_tagged bool_to_z u64 s64 io_string_witness.
+  bool_to_tagged bool_to_z u64 s64 io_string_witness
+  bits_to_sf sf_to_bits c_floordiv py_float_floor_div c_float_mod py_float_rem c_float_truediv py_float_truediv
+  c_from_float py_int_of_float c_floor c_ceil ffloor fceil c_from_tagged py_float_of_int c_truediv py_truediv
+  c_int_float_cmp py_int_float_cmp fcmp fadd fsub fmul fopp fabs c_fw_to_float c_float_to_fw py_float_to_fw.
